@@ -88,20 +88,20 @@ def check_uniform(odl, np):
         n, lo, hi = 5, -1.0, 2.5
         denom = n - 0.5 * bl - 0.5 * br
         cs = (hi - lo) / denom
-      for nb in ([(bl, br)], (bl, br)):           # per-axis list of pairs, and the 1-d spelling as one pair (left, right)
-        cases = {  'max_pt': dict(min_pt=lo, shape=n, cell_sides=cs), 'min_pt': dict(max_pt=hi, shape=n, cell_sides=cs), 'shape': dict(min_pt=lo, max_pt=hi, cell_sides=cs),
-                   'cell_sides': dict(min_pt=lo, max_pt=hi, shape=n)}
-          for missing, kw in cases.items():
-              try:
-                  p = odl.uniform_partition(nodes_on_bdry=nb, **kw)
-              except Exception as e:
-                  return 'uniform_partition(%r, nodes_on_bdry=%r) raised %s: %s' % (kw, nb, type(e).__name__, e)
-              if abs(p.min_pt[0] - lo) > 1e-9 or abs(p.max_pt[0] - hi) > 1e-9 or p.shape != (n,) or abs(p.cell_sides[0] - cs) > 1e-9:
-                  return 'uniform_partition(%r, nodes_on_bdry=%r): min_pt %r, max_pt %r, shape %r, cell_sides %r; expected %r, %r, (%d,), %r' % (
-                      kw, nb, p.min_pt, p.max_pt, p.shape, p.cell_sides, lo, hi, n, cs)
-              g = p.grid.coord_vectors[0]
-              if abs(g[0] - (lo + (0 if bl else cs / 2))) > 1e-9 or abs(g[-1] - (hi - (0 if br else cs / 2))) > 1e-9:
-                  return 'uniform_partition(%r, nodes_on_bdry=%r): grid runs from %r to %r' % (kw, nb, g[0], g[-1])
+        for nb in ([(bl, br)], (bl, br)):           # per-axis list of pairs, and the 1-d spelling as one pair (left, right)
+            cases = {'max_pt': dict(min_pt=lo, shape=n, cell_sides=cs), 'min_pt': dict(max_pt=hi, shape=n, cell_sides=cs), 'shape': dict(min_pt=lo, max_pt=hi, cell_sides=cs),
+                     'cell_sides': dict(min_pt=lo, max_pt=hi, shape=n)}
+            for missing, kw in cases.items():
+                try:
+                    p = odl.uniform_partition(nodes_on_bdry=nb, **kw)
+                except Exception as e:
+                    return 'uniform_partition(%r, nodes_on_bdry=%r) raised %s: %s' % (kw, nb, type(e).__name__, e)
+                if abs(p.min_pt[0] - lo) > 1e-9 or abs(p.max_pt[0] - hi) > 1e-9 or p.shape != (n,) or abs(p.cell_sides[0] - cs) > 1e-9:
+                    return 'uniform_partition(%r, nodes_on_bdry=%r): min_pt %r, max_pt %r, shape %r, cell_sides %r; expected %r, %r, (%d,), %r' % (
+                        kw, nb, p.min_pt, p.max_pt, p.shape, p.cell_sides, lo, hi, n, cs)
+                g = p.grid.coord_vectors[0]
+                if abs(g[0] - (lo + (0 if bl else cs / 2))) > 1e-9 or abs(g[-1] - (hi - (0 if br else cs / 2))) > 1e-9:
+                    return 'uniform_partition(%r, nodes_on_bdry=%r): grid runs from %r to %r' % (kw, nb, g[0], g[-1])
     return None
 
 
